@@ -17,3 +17,15 @@ package zstd
 //@   option noframe
 //@   modifies heap
 //@   ensures w.enc == nil
+
+//@ property C16
+// Streams produced by reference encoders are read correctly (C16): the decoder is built with the library's defaults for
+// everything that decides WHICH frames it accepts - the only option NewReader passes is the concurrency setting, so no
+// window, memory or dictionary limit of this package's choosing can reject a valid frame (a frame with a window above a
+// private limit is a valid frame a reference encoder produces at high levels).
+//@ func (*Codec).NewReader
+//@   option noframe
+//@   option only callsite callsite-reach
+//@   modifies heap
+//@   callsite zstd.NewReader requires len($1) == 1
+//@   callsite zstd.WithDecoderConcurrency requires $0 == 1
